@@ -2,7 +2,7 @@
    Level: proof of pkappa2's own logic (packet ordering across captures, UDP assembler, attribution);
    gopacket / libpcap are modelled by the ideal reassembler Tcp.v, whose round-trip theorem is the
    specification the correspondence check holds the library to. *)
-From Pk Require Import BuilderOrder BuilderOrderProofs Attrib AttribProofs Udp UdpProofs Tcp TcpProofs.
+From Pk Require Import BuilderOrder BuilderOrderProofs Attrib AttribProofs Udp UdpProofs UdpInterleave Tcp TcpProofs.
 From Coq Require Import Sorting.Sorted Sorting.Permutation.
 
 (* (1) The lazy multi-capture loop feeds the reassemblers the sorted list of all needed packets, each once. *)
@@ -31,13 +31,37 @@ Proof.
   vm_compute. reflexivity.
 Qed.
 
-(* (2) UDP assembler.  Proved for the packets of one flow alone (every hash function, every timing); the
-   non-interference of other flows interleaved in the feed is NOT proved (correspondence + examples). *)
-Theorem C05_udp_one_flow_alone_partial : forall (hashf : N -> N) (a b : endpoint) (l : list packet),
+(* (2) UDP assembler: non-interference of flows.  For EVERY feed with non-decreasing timestamps (what (1) delivers),
+   every hash function (bucket collisions included) and every flow {a,b}: the streams of that flow in the
+   factory are exactly [flow_runs] of the flow's own packets -- a new stream for the first packet and after every
+   gap above the timeout, client = first sender of the run, datagrams appended in order with their sender's
+   direction.  [forget] clears the Complete flag only (another flow's packet may trigger the flush earlier; the flag
+   is not written to the index). *)
+Theorem C05_udp_flows_do_not_interfere : forall (a b : endpoint), a <> b ->
+  forall (hashf : N -> N) (l : list packet),
+  tsorted 0 l ->
+  map forget (filter (sflow a b) (fst (udp_run hashf l))) = map forget (flow_runs None (filter (same_flow a b) l)).
+Proof. exact udp_flows_do_not_interfere. Qed.
+
+Theorem C05_feed_timestamps_nondecreasing : forall pcaps newPackets,
+  Forall pcap_ok pcaps -> mins_sorted pcaps -> tsorted 0 (feed pcaps newPackets).
+Proof. exact feed_tsorted. Qed.
+
+(* one flow alone: exact, Complete flag included, no hypothesis on the timestamps *)
+Theorem C05_udp_one_flow_alone : forall (hashf : N -> N) (a b : endpoint) (l : list packet),
   a <> b ->
   Forall (fun p => (p_src p = a /\ p_dst p = b) \/ (p_src p = b /\ p_dst p = a)) l ->
   fst (udp_run hashf l) = flow_runs None l.
 Proof. intros hashf a b l Hab Hl. exact (one_flow_streams hashf a b Hab l Hl). Qed.
+
+(* hypotheses satisfiable + the statement at work: two flows colliding in one bucket, one swapping roles after the timeout *)
+Example C05_udp_interleaving_example :
+  let A := (1, 1000) in let B := (2, 2000) in let C := (3, 1000) in
+  let feed := [exU 0 A B [1]; exU 1 C B [9]; exU 2 B A [2]; exU 3 B C [8]; exU 400000000 B A [3]; exU 400000001 C B [7]] in
+  tsorted 0 feed /\
+  map (fun s => (s_client s, coalesce (stream_data s))) (filter (sflow A B) (fst (udp_run (fun _ => 0) feed))) =
+  [(A, [(false, [1]); (true, [2])]); (B, [(false, [3])])].
+Proof. split; [vm_compute; intuition discriminate|vm_compute; reflexivity]. Qed.
 
 Theorem C05_udp_client_is_first_sender : forall p l s rest,
   flow_runs None (p :: l) = s :: rest -> s_client s = p_src p /\ s_server s = p_dst p.
